@@ -139,3 +139,9 @@ pub assume_specification[ f64::atan ](x: f64) -> f64;
 pub assume_specification[ f64::atan2 ](x: f64, y: f64) -> f64;
 
 pub assume_specification[ f64::hypot ](x: f64, y: f64) -> f64;
+
+/// f64::trunc (total, result unconstrained: A-float)
+#[verifier::external_body]
+pub fn vx_f64_trunc(a: f64) -> f64 {
+    a.trunc()
+}
